@@ -136,6 +136,14 @@ def pack(arrs):
     return arrs[0] if len(arrs) == 1 else tuple(arrs)
 
 
+def deep_state(est, prefix=""):
+    """names of all attributes (recursively through Chain steps and Vector components) plus the parameters' reprs: cross-validation must leave it unchanged"""
+    out = {prefix + "vars": sorted(vars(est)), prefix + "params": repr(est.get_params())}
+    for i, sub in enumerate([s for _, s in getattr(est, "steps", [])] + list(getattr(est, "components", []))):
+        out.update(deep_state(sub, prefix + "%d." % i))
+    return out
+
+
 def own_scores(spec, scoring, coords, data, weights, splits):
     """scores of fresh clones fitted on the training rows only and evaluated on the test rows only"""
     out = []
@@ -179,6 +187,7 @@ def check_cv(case, ctx):
     est = build.make_estimator(spec)
     params_before = repr(est.get_params())
     vars_before = sorted(vars(est))
+    deep_before = deep_state(est)
     d_arg, w_arg = pack(data), None if weights is None else pack(weights)
     kw = dict(cv=cv, scoring=scoring)
     serial = np.asarray(quiet(vd.cross_val_score, est, (e, n), d_arg, weights=w_arg, **kw))
@@ -190,6 +199,7 @@ def check_cv(case, ctx):
         raise Violation("split %d: cross_val_score(scoring=%r) = %.12g, a fresh clone fitted on the training rows only and scored on the test rows only gives %.12g "
                         "(estimator %r, weights %s, %d components)" % (k, scoring, serial[k], exp[k], spec, "given" if weights is not None else "none", len(data)))
     ctx.check(repr(est.get_params()) == params_before and sorted(vars(est)) == vars_before, "cross_val_score modified or fitted the estimator it was given")
+    ctx.check(deep_state(est) == deep_before, "cross_val_score fitted or modified a nested step/component of the estimator it was given")
     # delayed execution under harness-owned schedules
     delayed = quiet(vd.cross_val_score, est, (e, n), d_arg, weights=w_arg, delayed=True, **kw)
     ctx.check(len(delayed) == len(splits), "delayed=True returned %d tasks for %d splits", len(delayed), len(splits))
@@ -207,7 +217,8 @@ def check_cv(case, ctx):
     got = np.asarray(got, dtype="float64")
     if not np.array_equal(got, serial):
         raise Violation("delayed scores (%s schedule, %d workers) differ from the serial scores: %r vs %r" % (case["schedule"], case["workers"], got.tolist(), serial.tolist()))
-    ctx.check(repr(est.get_params()) == params_before and sorted(vars(est)) == vars_before, "delayed cross_val_score modified the estimator it was given")
+    ctx.check(repr(est.get_params()) == params_before and sorted(vars(est)) == vars_before and deep_state(est) == deep_before,
+              "delayed cross_val_score modified the estimator it was given")
     ctx.label(spec["kind"], "scoring_%s" % scoring, "cv_" + case["cv"]["kind"], case["schedule"], "weights" if weights is not None else "noweights", "comps%d" % len(data))
     imperfect = scoring not in (None, "r2") or np.any(exp < 0.999)
     nonuniform = weights is not None and any(len(set(np.round(np.ravel(w), 12))) > 1 for w in weights)
@@ -328,7 +339,7 @@ def splinecv_cases(draw):
     m = draw(st.integers(1, 6))
     return dict(dataset=ds, dampings=dampings, splits=splits, scoring=draw(st.sampled_from([None, "neg_mean_squared_error", "r2"])), delayed=draw(st.booleans()),
                 query=[[draw(gen.finite(0, ds["cloud"]["side"])), draw(gen.finite(0, ds["cloud"]["side"]))] for _ in range(m)],
-                use_none=draw(st.booleans()))
+                use_none=draw(st.booleans()), mindists=draw(st.sampled_from([None, None, [0.0, 0.5], [1.0, 0.0, 0.25]])))
 
 
 def check_splinecv(case, ctx):
@@ -342,7 +353,9 @@ def check_splinecv(case, ctx):
     if case["use_none"]:
         dampings = [None] + dampings
     cv = FixedSplits(case["splits"])
-    scv = quiet(vd.SplineCV, dampings=tuple(dampings), cv=cv, scoring=case["scoring"], delayed=case["delayed"])
+    mindists = None if case.get("mindists") is None else [m * ds["cloud"]["scale"] for m in case["mindists"]]
+    mkw = {} if mindists is None else dict(mindists=tuple(mindists))
+    scv = quiet(vd.SplineCV, dampings=tuple(dampings), cv=cv, scoring=case["scoring"], delayed=case["delayed"], **mkw)
     quiet(scv.fit, (e, n), d, w)
     scores = scv.scores_
     if case["delayed"]:
@@ -352,9 +365,11 @@ def check_splinecv(case, ctx):
     scores = np.asarray(scores, dtype="float64")
     exp = []
     splits = [(np.array(a), np.array(b)) for a, b in case["splits"]]
-    for damp in dampings:
-        exp.append(float(np.mean(own_scores(dict(kind="spline", damping=damp), case["scoring"], (e, n), [d], None if w is None else [w], splits))))
+    candidates = [(md, damp) for md in (mindists or [None]) for damp in dampings]
+    for md, damp in candidates:
+        exp.append(float(np.mean(own_scores(dict(kind="spline", damping=damp, mindist=md if md else None), case["scoring"], (e, n), [d], None if w is None else [w], splits))))
     exp = np.array(exp)
+    dampings = [c[1] for c in candidates]
     ctx.check(scores.shape == exp.shape, "scores_ has shape %s for %d candidates", scores.shape, len(dampings))
     # an undamped candidate on ill-conditioned folds is only loosely reproducible: compare with a conditioning-free tolerance on damped ones
     tol = 1e-7 * np.maximum(np.abs(exp), 1.0)
@@ -366,8 +381,9 @@ def check_splinecv(case, ctx):
     gap = np.sort(scores)[-1] - np.sort(scores)[-2] if len(scores) > 1 else 1.0
     if len(scores) > 1 and gap <= 1e-9 * max(abs(scores[best]), 1.0):
         ctx.skip("best_candidates_tied")
-    ctx.check(scv.damping_ == dampings[best], "SplineCV selected damping %r, the highest mean score belongs to %r (scores %r)", scv.damping_, dampings[best], scores.tolist())
-    ref = quiet(vd.Spline, damping=dampings[best])
+    ctx.check(scv.damping_ == dampings[best] and (mindists is None or scv.mindist_ == candidates[best][0]),
+              "SplineCV selected (mindist, damping) = (%r, %r), the highest mean score belongs to %r (scores %r)", scv.mindist_, scv.damping_, candidates[best], scores.tolist())
+    ref = quiet(vd.Spline, damping=dampings[best], **({} if not candidates[best][0] else dict(mindist=candidates[best][0])))
     quiet(ref.fit, (e, n), d, w)
     qe, qn = (np.array(v) for v in gen.cloud_query(ds["cloud"], case["query"]))
     ctx.check(np.array_equal(np.asarray(scv.predict((qe, qn))), np.asarray(ref.predict((qe, qn)))), "SplineCV does not predict like a Spline with the selected parameters fitted to all the data")
